@@ -148,11 +148,7 @@ func (commander *Commander) exec(ctx context.Context, parameters Parameters, scr
 				WithID(txID).
 				WithReference(script.Reference)
 
-			log := logComputer(tx, result.AccountMetadata)
-			if parameters.IdempotencyKey != "" {
-				log = log.WithIdempotencyKey(parameters.IdempotencyKey)
-			}
-			return log
+			return logComputer(tx, result.AccountMetadata)
 		})
 		if err != nil {
 			return nil, nil, err
